@@ -33,7 +33,7 @@ REQUIRED = [
 
 _env = None
 NULL = gettext.NullTranslations()
-PH = re.compile(r"(?<!%)%\(([\w-]+)\)s")  # a variable name may hold hyphens, like every Liquid identifier
+PH = re.compile(r"(?<!%)%\(([\w-]+\??)\)s")  # a variable name may hold hyphens, like every Liquid identifier
 WSRUN = re.compile(r"\s+")
 
 
@@ -61,9 +61,9 @@ def plural_pick(s: str, p: str, n: Any):
 
 def classify(msg: str) -> str:
     """Mechanism id: does the message contain a % that is not part of a well-formed %(name)s placeholder?"""
-    if re.search(r"%\{\{\s*[\w-]+\s*\}\}", msg):
+    if re.search(r"%\{\{\s*[\w-]+\??\s*\}\}", msg):
         return "percent-directly-before-placeholder"  # tag bodies only
-    rest = re.sub(r"%\([\w-]+\)s", "", msg)
+    rest = re.sub(r"%\([\w-]+\??\)s", "", msg)
     if "%" in rest:
         return "literal-percent"
     if PH.search(msg):
@@ -79,7 +79,7 @@ def judge(ctx: core.Ctx, case: dict[str, Any]) -> None:
     data: dict[str, Any] = {"m": msg, "pl": case.get("plural"), "cnt": V.dec(case["count"]) if "count" in case else None, "ctxv": case.get("context")}
     if case.get("outer"):
         # render data named like the message variables: the value given with the filter / tag is the one that is interpolated, nil included
-        data.update({"you": "OUTER-YOU", "n": "OUTER-N", "user-name": "OUTER-UN"})
+        data.update({"you": "OUTER-YOU", "n": "OUTER-N", "user-name": "OUTER-UN", "ok?": "OUTER-OK"})
     count = data["cnt"]
     chosen = msg
     if k == "tag":
@@ -110,12 +110,12 @@ def judge(ctx: core.Ctx, case: dict[str, Any]) -> None:
         if "count" in case:
             allvars.setdefault("count", count)
         # only {{ name }} placeholders are substituted; literal text (even text that looks like %(name)s) is left alone
-        outer = {"you": "OUTER-YOU", "n": "OUTER-N", "user-name": "OUTER-UN"} if case.get("outer") else {}
+        outer = {"you": "OUTER-YOU", "n": "OUTER-N", "user-name": "OUTER-UN", "ok?": "OUTER-OK"} if case.get("outer") else {}
         # a placeholder names a variable of the block's scope: the tag's own arguments first (nil included), then whatever the name means outside
         # "the tag also collapses whitespace runs": the message text is stripped and every whitespace run that holds a line break becomes
         # one space (documented behaviour of the tag); what a variable's own value contains is left alone
         chosen_n = re.sub(r"\s*\n\s*", " ", chosen.strip())
-        exp = re.sub(r"\{\{\s*([\w-]+)\s*\}\}", lambda m2: _txt(allvars[m2.group(1)] if m2.group(1) in allvars else outer.get(m2.group(1), "")), chosen_n)
+        exp = re.sub(r"\{\{\s*([\w-]+\??)\s*\}\}", lambda m2: _txt(allvars[m2.group(1)] if m2.group(1) in allvars else outer.get(m2.group(1), "")), chosen_n)
         o = drv.parse_and_render(e, src, data, use_async=case.get("async", False))
         norm = lambda s: s  # noqa: E731 - compared exactly
     else:
@@ -164,7 +164,7 @@ def judge(ctx: core.Ctx, case: dict[str, Any]) -> None:
             allvars.setdefault("count", count)
         if case.get("outer"):
             # a placeholder the filter's own arguments do not name is looked up in the render context
-            allvars = {**{"you": "OUTER-YOU", "n": "OUTER-N", "user-name": "OUTER-UN"}, **allvars}
+            allvars = {**{"you": "OUTER-YOU", "n": "OUTER-N", "user-name": "OUTER-UN", "ok?": "OUTER-OK"}, **allvars}
         exp = fmt(chosen, allvars)
         o = drv.parse_and_render(e, src, data, use_async=case.get("async", False))
         norm = lambda s: s  # noqa: E731
@@ -183,8 +183,8 @@ def judge(ctx: core.Ctx, case: dict[str, Any]) -> None:
     ctx.ok((src, case.get("msg"), case.get("vars"), case.get("count"), case.get("plural")), nontrivial=("%" in msg or "count" in case or bool(vars_)))
 
 
-TOKENS = ["Hello", " ", "%", "%%", "%s", "%d", "%(you)s", "%(n)s", "%(count)s", "(", ")", "\n  ", "<b>", "{", "100%", "%(", ")s", "é", "%(user-name)s"]
-TAG_TOKENS = ["Hello", " ", "%", "%%", "%s", "%(you)s", "(", ")", "\n  ", "<b>", "100%", "{{ you }}", "{{ n }}", "é", "  ", "\n\n", " \r\n \n\t", "{{ user-name }}"]
+TOKENS = ["Hello", " ", "%", "%%", "%s", "%d", "%(you)s", "%(n)s", "%(count)s", "(", ")", "\n  ", "<b>", "{", "100%", "%(", ")s", "é", "%(user-name)s", "%(ok?)s"]
+TAG_TOKENS = ["Hello", " ", "%", "%%", "%s", "%(you)s", "(", ")", "\n  ", "<b>", "100%", "{{ you }}", "{{ n }}", "é", "  ", "\n\n", " \r\n \n\t", "{{ user-name }}", "{{ ok? }}"]
 COUNTS: list[Any] = [-1, 0, 1, 2, 5, "2", 1.0, None]
 
 
@@ -202,8 +202,10 @@ def cases(ctx: core.Ctx):
             c: dict[str, Any] = {"kind": "filter", "filter": f, "msg": msg, "literal": bool(idx % 3 == 0), "async": idx % 13 == 0}
             if "%(user-name)s" in msg and idx % 3:
                 c.setdefault("vars", {})["user-name"] = ["Ann", 7, ""][idx % 3]
+            if "%(ok?)s" in msg and idx % 3:
+                c.setdefault("vars", {})["ok?"] = ["yes", 0, ""][idx % 3]
             if idx % 2:
-                c.setdefault("vars", {})["you"] = rng.choice(["Sue", "", "%s", 5, None])
+                c.setdefault("vars", {})["you"] = rng.choice(["Sue", "", "%s", 5, None, "100%% wool", "50%", "%off", "%(n)s"])
                 c["outer"] = idx % 4 == 1
                 c["nil_literal"] = idx % 8 == 1
             if f in ("ngettext", "npgettext") or (f == "t" and idx % 4 == 0):
@@ -227,11 +229,13 @@ def cases(ctx: core.Ctx):
             c = {"kind": "tag", "msg": body, "body": body, "async": idx % 13 == 0}
             vs = {}
             if "{{ you }}" in body and idx % 3:
-                vs["you"] = rng.choice(["Sue", "%s", "", 7, None])
+                vs["you"] = rng.choice(["Sue", "%s", "", 7, None, "100%% wool", "50%", "%off", "%(you)s"])
                 c["outer"] = idx % 2 == 0
                 c["nil_literal"] = idx % 4 == 0
             if "{{ n }}" in body and idx % 2:
                 vs["n"] = rng.choice([1, "x"])
+            if "{{ ok? }}" in body and idx % 3:
+                vs["ok?"] = ["yes", 0, ""][idx % 3]
             if "{{ user-name }}" in body:
                 # identifiers may hold hyphens: as a tag argument, or (every third time) left to the render context
                 if idx % 3:
